@@ -26,5 +26,7 @@ Beh == [reqs  |-> [i \in 1..Len(reqlog) |-> <<reqlog[i].cls, reqlog[i].shape>>],
         kinds |-> [i \in 1..Len(wire) |-> IF wire[i].type = "response" THEN "R" ELSE wire[i].name],
         seqs  |-> [i \in 1..Len(wire) |-> wire[i].seq],
         viol  |-> {v.c : v \in viol}]
+\* counterexamples are printed through this alias (one JSON string per state)
+BehAlias == [beh |-> ToJson(Beh)]
 EmitBeh == Terminal => PrintT(<<"BEH", ToJson(Beh)>>)
 =============================================================================
